@@ -14,6 +14,7 @@ import Ptk.Props.C19Color
 import Ptk.Props.C19Sgr
 import Ptk.Props.C19Depth
 import Ptk.Props.C19Style
+import Ptk.Props.C19Valid
 namespace Ptk.C19
 open Ptk.Py
 
@@ -48,6 +49,9 @@ theorem gen_emptyAttrs :
 /-- ANSI names / alias keys / named-colour keys are words the style parser reads back as such;
     `_EMPTY_ATTRS` is all-None and `DEFAULT_ATTRS` is ''/False everywhere -/
 theorem gen_styleOk : StyleOk G := styleOk_of_bool G (by decide +kernel)
+
+/-- alias values are ANSI names, named-colour values are six hex digits -/
+theorem gen_colorTablesOk : ColorTablesOk G := colorTablesOk_of_bool G (by decide +kernel)
 
 /-! ## 1. the cascade -/
 
@@ -241,6 +245,50 @@ theorem roundtrip_24bit (a : Attrs) (hv : ValidAttrs G a) :
 theorem roundtrip_24bit_canonical (a : Attrs) (hv : ValidAttrs G a) (hc : canon G a = a) :
     decodeEscape G gsp (escapeCode G gsp .d24 a) = some a := by
   rw [roundtrip_24bit a hv, hc]
+
+/-- **C19-m (from style string to escape code and back).**  Let the rules come from a sheet whose
+    style strings only contain acceptable colour words, the queried style string likewise, and the
+    default be valid.  Then whatever `get_attrs_for_style_str` resolves is encoded at 24 bit into an
+    escape sequence that decodes back to the same attributes (canonical form).
+    `ColorArgOk` excludes exactly the words `#xxxxxx` / `#xxx` with a non-hex character — see
+    `unvalidated_hex_breaks_roundtrip` — and excludes nothing once `parse_color` validates digits. -/
+theorem resolve_encode_decode (sheet : List (Text × Text)) (rules : List Rule)
+    (hsheet : SheetOk G gsp sheet) (hcomp : compile G gsp grsp sheet = .ok rules)
+    (s : Text) (hs : InlineOk G gsp s) (d : Attrs) (hd : PValid G d) (a : Attrs)
+    (h : getAttrs G gsp rules s d = some a) :
+    decodeEscape G gsp (escapeCode G gsp .d24 a) = some (canon G a) :=
+  roundtrip_24bit a
+    (resolved_attrs_valid G gen_colorTablesOk gen_styleOk gsp rules
+      (compile_pvalid G gen_colorTablesOk gen_styleOk gsp grsp sheet rules hsheet hcomp) s hs d hd a h)
+
+/-- non-vacuity: the sample sheet and a style string with inline colours satisfy the hypotheses -/
+example : SheetOk G gsp sampleSheet ∧ InlineOk G gsp "class:a.x,b #0000FF bg:#abc".toList ∧
+    PValid G G.defaultAttrs := by
+  refine ⟨by decide +kernel, by decide +kernel, ?_⟩
+  rw [gen_defaultAttrs]; exact pvalid_dflt G
+
+/-- **Finding (full statement is false on the current tree).**  `parse_color` accepts any six
+    characters after '#': the style string '#zzzzzz' resolves to the colour 'zzzzzz', for which no
+    colour code is emitted, so the escape sequence decodes to the empty colour.  Stated so that it
+    stays true (vacuously) once `parse_color` validates the digits. -/
+theorem unvalidated_hex_breaks_roundtrip : G.hexValidated = false →
+    ∃ a, getAttrs G gsp [] "#zzzzzz".toList G.defaultAttrs = some a ∧
+      a.color = some "zzzzzz".toList ∧
+      escapeCode G gsp .d24 a = (Char.ofNat 27 :: "[0m".toList) ∧
+      decodeEscape G gsp (escapeCode G gsp .d24 a) ≠ some (canon G a) := by
+  intro hflag
+  refine ⟨{ G.defaultAttrs with color := some "zzzzzz".toList }, ?_, rfl, ?_, ?_⟩
+  · revert hflag; decide +kernel
+  · decide +kernel
+  · decide +kernel
+
+/-- once `parse_color` validates hex digits, every resolvable style string round-trips -/
+theorem validated_hex_all_roundtrip (hflag : G.hexValidated = true) (sheet : List (Text × Text))
+    (rules : List Rule) (hcomp : compile G gsp grsp sheet = .ok rules) (s : Text) (a : Attrs)
+    (h : getAttrs G gsp rules s G.defaultAttrs = some a) :
+    decodeEscape G gsp (escapeCode G gsp .d24 a) = some (canon G a) :=
+  resolve_encode_decode sheet rules (fun _ _ _ _ _ _ => Or.inl hflag) hcomp s
+    (fun _ _ _ _ _ _ _ => Or.inl hflag) _ (by rw [gen_defaultAttrs]; exact pvalid_dflt G) a h
 
 def sampleAttrs : Attrs :=
   { color := some "FF8000".toList, bgcolor := some "ansiblue".toList, bold := some true, underline := none,
